@@ -1,5 +1,5 @@
 \* two tokens, all three outcomes (timeouts are real 1 s waits in the replay): short histories
 CONSTANTS N = 2  Tokens = {"t1", "t2"}  Outcomes = {"ok", "err", "timeout"}  Disabled = FALSE  MaxSteps = 3  Variant = "code"
 SPECIFICATION Spec
-INVARIANTS TypeOK Counter HealthyIff Export
+INVARIANTS TypeOK Counter Clock HealthyIff Export
 CHECK_DEADLOCK FALSE
